@@ -685,9 +685,27 @@ func runC17(a Args) Result {
 			stats["c17-tilt/"+k]["rejected"] += v[1]
 		}
 	}
+	// one more pass on a data-only workload with a WEAK id hasher (16 distinct outputs): many content
+	// hashes share their short-id candidate, so a data query that goes through ids must still answer
+	// for exactly the IRI / content hash it was asked about
+	{
+		seed := a.Seed*1000003 + int64(a.Worker)*7919 + 999983
+		tag := fmt.Sprintf("s%d-w%d-weakhasher", a.Seed, a.Worker)
+		app := chain.NewApp(chain.Options{Hasher: HasherByName("mod16")})
+		res := run.Exec(run.Config{Seed: seed, Steps: a.Steps / 3, Profile: gen.ProfileFor("C16"), Genesis: "default", Rep: rep, Bootstrap: true, SeedTag: tag, App: app,
+			QuiesceEvery: every,
+			OnEngine:     func(e *eng.Engine) { e.HasherID = "mod16" },
+			Quiesce: func(e *eng.Engine, g *gen.Gen) {
+				st.checkQueries(e, seed^int64(e.App.Header.Height)*2654435761, fmt.Sprintf("%s height %d", tag, e.App.Header.Height))
+			}})
+		if res.Err != nil {
+			errs = append(errs, res.Err.Error())
+		}
+	}
 	cov := st.coverage()
 	cov["by_message_type"] = stats
 	cov["genesis_variants"] = a.Variants
+	cov["weak_hasher_pass"] = "data-only workload with the 16-output id hasher, same query checke"
 	if len(errs) > 0 {
 		cov["run_errors"] = errs
 	}
